@@ -260,6 +260,7 @@ def run(ctx):
     cov = dict(
         states=main.distinct, transitions=main.generated,
         traces_validated_against_impl=traces["validated"], trace_events=traces["events"],
+        trace_selftest=traces.get("selftest", []), traces_explained_with_switches=traces.get("with_switches", []),
         evaluations=stats["clients"], distinct_nontrivial=len(stats["cases"]),
         rule="one evaluation = one well-formed client session compared with the standalone run of its module; distinct = "
              "(corpus module, real client | raw socket, number of concurrent clients); scenarios (module multiset x arrival "
